@@ -64,7 +64,7 @@ def run(tier, v):
             args += ["-random", str(nrand), "-mode", "c14"]
         vlib.run_driver(b, args, timeout=3000)
         rows, ts, nb = al.validate(v, trace, sig, "real provider diverges from AmmoFormats.ExpectedSel",
-                                   heap="16g" if thorough else "6g", workers=16 if thorough else 8, timeout=3000)
+                                   heap="16g" if thorough else "6g", workers=16 if thorough else 8, timeout=3000, case_files=batch)
         tstates += ts
         bad += nb
         samples += [al.brief_case(r) | {"delivered_tags": [x["tag"] for x in r["obs"]["deliv"]], "ended": r["obs"]["ended"],
